@@ -237,8 +237,17 @@ func c19SessionSweep() []c19Session {
 	pk("export", []string{"(defpackage \"zqpk\" (:use \"common-lisp\") (:export \"zqx\"))", "(defvar zqpk::zqx 5)"}, "zqpk:zqx")
 	pk("variable", []string{"(defpackage \"zqpk\" (:use \"common-lisp\"))", "(defvar zqpk::zqv '(1 a))"}, "zqpk::zqv")
 	pk("function", []string{"(defpackage \"zqpk\" (:use \"common-lisp\"))", "(defun zqpk::zqf (x) (* x 2))"}, "(zqpk::zqf 4)")
-	pk("uses-package", []string{"(defpackage \"zqpa\" (:use \"common-lisp\"))", "(defpackage \"zqpk\" (:use \"common-lisp\" \"zqpa\"))"},
-		"(mapcar #'package-name (package-use-list (find-package \"zqpk\")))")
+	add("defpackage/uses-package", c19Def{Kind: "defpackage", Name: "zqpa", Forms: []string{"(defpackage \"zqpa\" (:use \"common-lisp\"))"}},
+		c19Def{Kind: "defpackage", Name: "zqpk", Deps: []string{"zqpa"}, Forms: []string{"(defpackage \"zqpk\" (:use \"common-lisp\" \"zqpa\"))"},
+			Probes: []string{"(mapcar #'package-name (package-use-list (find-package \"zqpk\")))"}})
+	add("defpackage/uses-later-package", c19Def{Kind: "defpackage", Name: "zqpz", Forms: []string{"(defpackage \"zqpz\" (:use \"common-lisp\"))"}},
+		c19Def{Kind: "defpackage", Name: "zqpk", Deps: []string{"zqpz"}, Forms: []string{"(defpackage \"zqpk\" (:use \"common-lisp\" \"zqpz\"))"},
+			Probes: []string{"(mapcar #'package-name (package-use-list (find-package \"zqpk\")))"}})
+	add("defpackage/use-chain", c19Def{Kind: "defpackage", Name: "zqpz", Forms: []string{"(defpackage \"zqpz\" (:use \"common-lisp\"))"}},
+		c19Def{Kind: "defpackage", Name: "zqpm", Deps: []string{"zqpz"}, Forms: []string{"(defpackage \"zqpm\" (:use \"zqpz\"))"}},
+		c19Def{Kind: "defpackage", Name: "zqpa", Deps: []string{"zqpm"}, Forms: []string{"(defpackage \"zqpa\" (:use \"zqpm\" \"common-lisp\"))"},
+			Probes: []string{"(mapcar #'package-name (package-use-list (find-package \"zqpa\")))"}},
+		c19Def{Kind: "defpackage", Name: "zqpb", Forms: []string{"(defpackage \"zqpb\")"}})
 	return out
 }
 
@@ -246,7 +255,8 @@ func c19SessionSweep() []c19Session {
 // composite sessions
 
 type c19SessGen struct {
-	noCalls bool // (state) no calls of user functions in the expression being generated
+	pkgs    []string // user packages defined so far
+	noCalls bool     // (state) no calls of user functions in the expression being generated
 	r       *lib.Rng
 	listed  func(cell string) bool
 	n       int
@@ -501,8 +511,18 @@ func (g *c19SessGen) addDef() {
 			return
 		}
 		name := g.name("pk")
+		if r.Chance(50) {
+			name = fmt.Sprintf("zq%cpk%03d", 'a'+rune(r.Intn(26)), g.n) // any position in the name order
+		}
 		d := c19Def{Kind: "defpackage", Name: name}
 		opts := " (:use \"common-lisp\")"
+		if len(g.pkgs) > 0 && r.Chance(50) && !g.listed("defpackage/uses-package") && !g.listed("defpackage/uses-later-package") {
+			// names are drawn so that a used package may sort before or after its user
+			for _, j := range c19Pick(r, len(g.pkgs), 1+r.Intn(2)) {
+				d.Deps = append(d.Deps, g.pkgs[j])
+			}
+			opts = " (:use \"common-lisp\" \"" + strings.Join(d.Deps, "\" \"") + "\")"
+		}
 		if r.Chance(50) && !g.listed("defpackage/nicknames") {
 			opts = fmt.Sprintf(" (:nicknames \"%s-n\")", name) + opts
 		}
@@ -515,6 +535,8 @@ func (g *c19SessGen) addDef() {
 			d.Forms = append(d.Forms, fmt.Sprintf("(defvar %s::pv %d)", name, r.Intn(99)))
 			d.Probes = append(d.Probes, name+"::pv")
 		}
+		d.Probes = append(d.Probes, fmt.Sprintf("(mapcar #'package-name (package-use-list (find-package %q)))", name))
+		g.pkgs = append(g.pkgs, name)
 		g.defs = append(g.defs, d)
 	}
 }
@@ -699,16 +721,21 @@ type c19SessResult struct {
 	Expected string
 	Snap1    string
 	Snap2    string
-	Invalid  string // the session itself did not evaluate (not a verdict)
-	Order    []string
+	Invalid  string   // the session itself did not evaluate (not a verdict)
+	Order    []string // flavors in the order of the first snapshot
+	PkgOrder []string // user packages in the order of the first snapshot
 }
 
 var c19HeaderRe = regexp.MustCompile(`^;;;; Snapshot taken at [^\n]*\n`)
 var c19FlavorRe = regexp.MustCompile(`(?m)^\(defflavor (\S+)`)
+var c19PackageRe = regexp.MustCompile(`(?m)^\(defpackage "([^"]+)"`)
 var c19HeadRe = regexp.MustCompile(`^\(\s*([^\s()]+)(?:\s+([^\s()]+))?`)
 
 // c19FormHead: "head" or "head name" of a top-level form text, package prefix removed
 func c19FormHead(src string) (head, name string) {
+	if i := strings.Index(src, "("); i > 0 && strings.HasPrefix(strings.TrimSpace(src), ";") {
+		src = src[i:] // the snapshot's header comment (the worker reports one-line texts)
+	}
 	m := c19HeadRe.FindStringSubmatch(strings.TrimSpace(src))
 	if m == nil {
 		return "?", ""
@@ -770,6 +797,9 @@ func c19RunSession(dir string, sess *c19Session) (res c19SessResult) {
 	// order of the flavors in the snapshot
 	for _, m := range c19FlavorRe.FindAllStringSubmatch(r1.Snapshot, -1) {
 		res.Order = append(res.Order, strings.ToLower(m[1]))
+	}
+	for _, m := range c19PackageRe.FindAllStringSubmatch(r1.Snapshot, -1) {
+		res.PkgOrder = append(res.PkgOrder, strings.ToLower(m[1]))
 	}
 	r2, err := c19RunWorker(dir, &c19Req{Mode: "load", File: "snap1.lisp", Probes: probes, Snap: true})
 	if err != nil {
@@ -907,24 +937,38 @@ func c19RunSessions(c *lib.Ctx) {
 		}(i)
 	}
 	wg.Wait()
-	// the order of the flavors in each snapshot, judged by the model: `lf close` flattens the
-	// session's direct components as slip does, `lf loads` defines the flavors in the observed order
-	// (loadFlavors: a flavor needs its components defined), `lf order` is the model's own order
+	// the order of the flavors and of the packages in each snapshot, judged by the model: `lf close`
+	// flattens the session's direct components as slip does, `lf loads` defines them in the observed
+	// order (loadFlavors: a definition needs its components defined), `lf order` is the model's order
+	type orderCase struct {
+		i        int
+		kind     string
+		observed []string
+	}
+	var cases []orderCase
 	var closeReqs []string
-	var orderIdx []int
 	for i := range results {
 		res := &results[i]
-		if res.Invalid != "" || len(res.Order) < 2 {
+		if res.Invalid != "" {
 			continue
 		}
-		var defs []string
-		for _, d := range res.Sess.Defs {
-			if d.Kind == "defflavor" {
-				defs = append(defs, d.Name+":"+strings.Join(d.Deps, ","))
+		for _, kind := range []string{"defflavor", "defpackage"} {
+			observed := res.Order
+			if kind == "defpackage" {
+				observed = res.PkgOrder
 			}
+			if len(observed) < 2 {
+				continue
+			}
+			var defs []string
+			for _, d := range res.Sess.Defs {
+				if d.Kind == kind {
+					defs = append(defs, d.Name+":"+strings.Join(d.Deps, ","))
+				}
+			}
+			closeReqs = append(closeReqs, "lf close "+strings.Join(defs, " "))
+			cases = append(cases, orderCase{i, kind, observed})
 		}
-		closeReqs = append(closeReqs, "lf close "+strings.Join(defs, " "))
-		orderIdx = append(orderIdx, i)
 	}
 	closed := c.Model(closeReqs)
 	var reqs2 []string
@@ -935,30 +979,37 @@ func c19RunSessions(c *lib.Ctx) {
 			nodes[name] = n
 		}
 		var observed []string
-		for _, name := range results[orderIdx[k]].Order {
+		for _, name := range cases[k].observed {
 			if n, has := nodes[name]; has {
 				observed = append(observed, n)
 			}
+		}
+		cases[k].observed = nil
+		for _, n := range observed {
+			name, _, _ := strings.Cut(n, ":")
+			cases[k].observed = append(cases[k].observed, name)
 		}
 		reqs2 = append(reqs2, "lf order "+strings.TrimPrefix(cl, "ok "), "lf loads "+strings.Join(observed, " "))
 	}
 	replies := c.Model(reqs2)
 	agree := 0
-	for k, i := range orderIdx {
-		res := &results[i]
+	for k, oc := range cases {
+		res := &results[oc.i]
 		want := strings.Fields(strings.TrimPrefix(replies[2*k], "ok "))
-		if strings.Join(want, " ") == strings.Join(res.Order, " ") {
+		if strings.Join(want, " ") == strings.Join(oc.observed, " ") {
 			agree++
 		} else {
-			c.Ev.Hist("order_differs_from_model", fmt.Sprintf("%d flavors", len(want)))
+			c.Ev.Hist("order_differs_from_model", fmt.Sprintf("%s %d", oc.kind, len(want)))
 		}
-		if loads := strings.Fields(replies[2*k+1]); len(loads) >= 3 && loads[1] == "nil" {
-			// the model cannot define the flavors in the order of the snapshot
-			res.Aspect, res.Detail = "order", "defflavor"
-			res.Observed = fmt.Sprintf("%s is written before a flavor it inherits from: %s (load: %s)", loads[2], strings.Join(res.Order, " "), res.Observed)
-			res.Expected = "every flavor after the flavors it inherits from, e.g. the model's order " + strings.Join(want, " ")
+		c.Ev.Hist("order_cases_by_kind", oc.kind)
+		if loads := strings.Fields(replies[2*k+1]); len(loads) >= 3 && loads[1] == "nil" && res.Aspect != "order" {
+			// the model cannot make the definitions in the order of the snapshot
+			res.Aspect, res.Detail = "order", oc.kind
+			res.Observed = fmt.Sprintf("%s is written before a definition it needs: %s (load: %s)", loads[2], strings.Join(oc.observed, " "), res.Observed)
+			res.Expected = "every definition after the definitions it inherits from / uses, e.g. the model's order " + strings.Join(want, " ")
 		}
 	}
+	orderIdx := cases
 	invalid := 0
 	for i := range results {
 		res := &results[i]
@@ -999,12 +1050,17 @@ func c19RunSessions(c *lib.Ctx) {
 
 // c19ModelOrder applies the model's verdict on the flavor order of one session result.
 func c19ModelOrder(c *lib.Ctx, res *c19SessResult) {
-	if len(res.Order) < 2 {
+	c19ModelOrderOf(c, res, "defflavor", res.Order)
+	c19ModelOrderOf(c, res, "defpackage", res.PkgOrder)
+}
+
+func c19ModelOrderOf(c *lib.Ctx, res *c19SessResult, kind string, order []string) {
+	if len(order) < 2 || res.Aspect == "order" {
 		return
 	}
 	var defs []string
 	for _, d := range res.Sess.Defs {
-		if d.Kind == "defflavor" {
+		if d.Kind == kind {
 			defs = append(defs, d.Name+":"+strings.Join(d.Deps, ","))
 		}
 	}
@@ -1015,15 +1071,15 @@ func c19ModelOrder(c *lib.Ctx, res *c19SessResult) {
 		nodes[name] = n
 	}
 	var observed []string
-	for _, name := range res.Order {
+	for _, name := range order {
 		if n, has := nodes[name]; has {
 			observed = append(observed, n)
 		}
 	}
 	if loads := strings.Fields(c.Model([]string{"lf loads " + strings.Join(observed, " ")})[0]); len(loads) >= 3 && loads[1] == "nil" {
-		res.Aspect, res.Detail = "order", "defflavor"
-		res.Observed = fmt.Sprintf("%s is written before a flavor it inherits from: %s", loads[2], strings.Join(res.Order, " "))
-		res.Expected = "every flavor after the flavors it inherits from"
+		res.Aspect, res.Detail = "order", kind
+		res.Observed = fmt.Sprintf("%s is written before a definition it needs: %s", loads[2], strings.Join(order, " "))
+		res.Expected = "every definition after the definitions it inherits from / uses"
 	}
 }
 
